@@ -51,12 +51,15 @@ def parked_pairs(ctx, r):
                 if not pk.parked:
                     pk.wait(5); pk = None
                     continue
+                if not sched.holds_lock(pk.steps_at_park):     # stopped later than addressed (see sched.Parked): not a "lock held" schedule
+                    ctx.count(1, key=("skipped: parked outside the locked region",)); pk.resume(); pk = None
+                    continue
                 before = c.log_bytes()
                 rb = c.exec(argvB, stdinB, env=envB, timeout=10)
                 mid = c.log_bytes()
                 step = {"A": argvA, "A_stdin": (stdinA or b"").decode("utf-8", "replace")[:200], "B": argvB, "B_stdin": (stdinB or b"").decode("utf-8", "replace")[:200],
-                        "schedule": "A parked after call %d (%s) holding the lock; B runs; A resumes" % (k, strace.summarize(steps[:k])[-1:])}
-                ctx.count(1, key=(reqA["cmd"], reqB["cmd"], strace.summarize(steps[:k])[-1]))
+                        "schedule": "A parked after %s holding the lock; B runs; A resumes" % (strace.summarize(pk.steps_at_park)[-1:],)}
+                ctx.count(1, key=(reqA["cmd"], reqB["cmd"], strace.summarize(pk.steps_at_park)[-1]))
                 if rb.get("timeout"):
                     ctx.violation("C02 command blocks waiting for the lock (%s)" % reqB["cmd"], "B did not return within 10 s", {"trace": trace + [step]}); return
                 pre_lock_fail = rb["exit"] != 0 and "lock busy" not in rb["stderr"]     # validation errors happen before the lock
